@@ -2,6 +2,7 @@ package main
 
 import (
 	"fmt"
+	"go/token"
 	"strings"
 
 	"golang.org/x/tools/go/ssa"
@@ -46,6 +47,7 @@ func runC15(c *Ctx) {
 	checkCoupledRollback(c, "C15-R1")
 	// the store side of a (multi-block) disconnect: every block at or above the new tip is detached
 	checkRollbackWalk(c, "C15-R1")
+	checkReorgDisconnectHashes(c, "C15-R2")
 
 	// ---------- R2 stamp completeness at every SetSyncedTo site ----------
 	nSites := 0
@@ -594,4 +596,69 @@ func checkCoupledRollback(c *Ctx, rule string) {
 	}
 	c.Floor(rule, "coupled stamp+rollback sites", nCoupled, 2)
 
+}
+
+// checkReorgDisconnectHashes: the bitcoind client reconstructs a reorg itself: it walks the stale branch down to the
+// common ancestor and reports one BlockDisconnected per stale block from its running (hash, height) stamp. The wallet
+// acts on a disconnect only if the hash is the one it stored for that height, so each step of the walk must leave the
+// stamp's hash equal to the hash of the block it stepped to: the hash the new current header was fetched by (or that
+// header's own BlockHash) — not a field of the fetched header, which names the block one further down.
+func checkReorgDisconnectHashes(c *Ctx, rule string) {
+	p := c.P
+	fn := p.Func("chain", "BitcoindClient", "reorg")
+	if fn == nil {
+		c.Unresolved(rule, "chain.BitcoindClient.reorg")
+		return
+	}
+	loops := loopsOf(fn)
+	n := 0
+	for _, b := range fn.Blocks {
+		for _, ins := range b.Instrs {
+			st, ok := ins.(*ssa.Store)
+			if !ok {
+				continue
+			}
+			fa, ok := st.Addr.(*ssa.FieldAddr)
+			if !ok {
+				continue
+			}
+			if tn, f := fieldAddrName(fa); tn != "BlockStamp" || f != "Hash" {
+				continue
+			}
+			l := innermostLoopOf(loops, st)
+			if l == nil {
+				continue
+			}
+			n++
+			// the header fetch of this step: the GetBlockHeader call in the loop that dominates the store
+			var fetch *ssa.Call
+			for bb := range l.Blocks {
+				for _, i2 := range bb.Instrs {
+					if call, ok := i2.(*ssa.Call); ok && calleeShort(&call.Call) == "GetBlockHeader" && call.Block().Dominates(st.Block()) {
+						fetch = call
+					}
+				}
+			}
+			okV := false
+			why := "no header fetch dominates the update"
+			if fetch != nil {
+				why = "the stored hash is " + describeValue(st.Val)
+				arg := fetch.Call.Args[len(fetch.Call.Args)-1]
+				v := stripConv(st.Val)
+				if ld, ok := v.(*ssa.UnOp); ok && ld.Op == token.MUL && ld.X == arg {
+					okV = true // the hash the header was looked up by
+				}
+				if call, ok := v.(*ssa.Call); ok && calleeShort(&call.Call) == "BlockHash" {
+					for _, o := range (&Slicer{P: p, KeepExtract: true, ThroughDeref: true}).Origins(call.Call.Args[0]) {
+						if ex, ok := o.(*ssa.Extract); ok && ex.Tuple == ssa.Value(fetch) {
+							okV = true // the fetched header's own hash
+						}
+					}
+				}
+			}
+			c.Check(rule, "reorg-step-keeps-hash-of-the-block-stepped-to", st.Pos(), okV,
+				"BitcoindClient.reorg moves its current-block stamp one block down but sets the stamp's hash to something other than the hash of that block ("+why+"): the following BlockDisconnected notifications pair each height with a neighbouring block's hash, the wallet ignores them, and a reorg deeper than one block leaves the lower stale blocks (and the transactions confirmed in them) in place")
+		}
+	}
+	c.Floor(rule, "stamp hash updates in the reorg walk", n, 1)
 }
